@@ -292,7 +292,14 @@ def build() -> dict:
                 "serves_properties": sorted(CLAIMED),
                 "kind_free_text": "explicit TLA+ specifications under /verif/spec checked with TLC 1.8; bound to the implementation by "
                 "spec->code replay of TLC behaviours and code->spec batch trace validation",
-            }
+            },
+            {
+                "name": "extras",
+                "path": "/verif/vf/extra.py",
+                "serves_properties": [],
+                "kind_free_text": "specifications beyond the listed properties (FutureBridge.tla: lowlevel.futures.unwrap_future, exact replay of TLC "
+                "behaviours); `cd /verif && /venv/bin/python -m vf.extra`; reports in evidence/extra/, never a property alarm",
+            },
         ],
         "checks": checks,
         "not_applicable": na,
